@@ -29,7 +29,7 @@ def check(pm: ProgramModel, ctx: Ctx) -> None:
         "are evaluated from source on that document, and the abstract models are compared field "
         "by field with exact types. A second cycle must reproduce model and text; the value "
         "returned must be the text written; parse_json must agree with transform.")
-    ctx.not_decided = ["interaction between dimensions beyond the combined abstract model",
+    ctx.not_decided = ["three-way and higher interactions between dimensions (every two-way combination is in the pairwise family)",
                        "documents not produced by the writer (C09 covers third-party documents)"]
     rule = "C05"
     mb = ModelBuilder(pm)
